@@ -784,6 +784,10 @@ def gen_rates(rnd, dyn='sto'):
     # (a fixed-rate event keeps its rate while its locus is empty: thousands of idle iterations at rate 1000, more than the model driver's fuel)
     fixed = [[rnd.randrange(3), rnd.choice([p for p in P if p <= 3.0]), rnd.randrange(3)] for _ in range(rnd.choice([0, 1, 2]))]
     comps = rnd.choice([[0.5, 0.5, 0.0], [0.5, 0.25, 0.25], [1.0, 0.0, 0.0]])
+    if rnd.random() < 0.2:
+        # a fixed-rate event with positive rate on a locus that starts empty, and last of all one with rate zero on a populated locus
+        comps = [1.0, 0.0, 0.0]
+        fixed = [[rnd.choice([1, 2]), rnd.choice([0.25, 0.5, 1.0, 3.0]), rnd.randrange(3)], [0, 0.0, rnd.randrange(3)]]
     sp = dict(comps=comps, nodeloci=nodeloci, edgeloci=[], multiloci=[], perel=perel, fixed=fixed, handlers=handlers, posts=[])
     ps = sorted({p for (_, p, _) in perel + fixed if 0 < p < 1})
     return dict(procs=[dict(cls='Script', name=None, spec=sp)], seq='bare', dyn=dyn, nodes=nodes, edges=edges,
@@ -802,6 +806,18 @@ def gen_bigloci(rnd, dyn='syn'):
     params = {P.P_INFECTED: 1.0, P.P_INFECT: 0.5, (SIR.P_REMOVE if cls == 'SIR' else SIS.P_RECOVER): rnd.choice([0.5, 1.0, 0.03125])}
     return dict(procs=[dict(cls=cls, name=None, params=params)], seq='bare', dyn=dyn, nodes=nodes, edges=edges, maxT=2.0, seed=rnd.random(),
                 specials=[0.5], pspecial=0.05, oracles=['clock', 'member'], maxevents=800)
+
+
+def gen_dominoes(rnd, dyn='syn'):
+    """an event function that posts an event for the current time which moves *another* element out of the locus: posted for now, it is due
+    at the start of the next step, not in the middle of this one's firings"""
+    nodes, edges = rand_net(rnd, 3, 6)
+    order = sorted(nodes)
+    b = rnd.choice(order[1:3]) if rnd.random() < 0.7 else rnd.choice(order)
+    handlers = [['N', [['POSTE', 0.0, 1]]], ['N', [['CC', b, 1]]]]
+    sp = dict(comps=[1.0, 0.0], nodeloci=[0], edgeloci=[], multiloci=[], perel=[[0, rnd.choice([1.0, 1.0, 0.5]), 0]], fixed=[], handlers=handlers, posts=[])
+    return dict(procs=[dict(cls='Script', name=None, spec=sp)], seq='bare', dyn=dyn, nodes=nodes, edges=edges,
+                maxT=rnd.choice([2.0, 3.0]), seed=rnd.random(), specials=[0.5], pspecial=0.1, oracles=['clock', 'member', 'loci'])
 
 
 def gen_adaptive(rnd, dyn=None):
